@@ -19,7 +19,8 @@ def generate(rng, tier, shard, nshards):
         srn = ["RatU", "RatU", "Sat3", "Bool", "Rat"][i % 5]
         style = rng.choice(aops.STATE_STYLES)
         if srn in ("RatU", "Rat"):
-            A = aops.rand_wfsa(rng, srn, nS=rng.choice([3, 4]), narcs=rng.choice([4, 6, 8]), acyclic=True)
+            A = aops.rand_wfsa(rng, srn, nS=rng.choice([3, 4]), narcs=rng.choice([4, 6, 8]), acyclic=True,
+                               eps_loop=0.3 if i % 2 else 0.0)
             feat = aops.afeat(A)
             base = {"sr": srn, "A": A, "sigma": sig, "L": max(L, A["n"]), "style": style}
             for fn in ("determinize", "min_det", "push", "trim", "trim_vals"):
